@@ -209,7 +209,7 @@ pub proof fn lemma_sonic_lc_lockstep(tm: Map<&String, (&LabeledPolynomial, &St, 
 }
 pub struct SonicKZG10;
 impl SonicKZG10 {
-//@fn id=sonic.check_combinations file=poly-commit/src/sonic_pc/mod.rs scope="impl<E, P> PolynomialCommitment<E::ScalarField, P> for SonicKZG10<E, P>" name=check_combinations props=C06,C05,C04,C17,C02
+//@fn id=sonic.check_combinations file=poly-commit/src/sonic_pc/mod.rs scope="impl<E, P> PolynomialCommitment<E::ScalarField, P> for SonicKZG10<E, P>" name=check_combinations props=C06,C05,C04,C17,C02,C11
     #[verifier::loop_isolation(false)]
     fn check_combinations<'a>(vk: &VK, linear_combinations: Vec<&'a LinearCombination>, commitments: Vec<&'a LabeledCommitment<Commitment>>, eqn_query_set: &BTreeSet<(String, (String, Pt))>, eqn_evaluations: &BTreeMap<(String, Pt), Fr>, proof: &BatchLCProof, sponge: &mut Sponge, rng: &mut Rng) -> (res: Result<bool, Error>)
     ensures
@@ -346,7 +346,7 @@ impl SonicKZG10 {
             assert(evaluations@ =~= adj_ev(ev0, lcs0, n));
         }
 //@end
-//@fn id=sonic.open_combinations file=poly-commit/src/sonic_pc/mod.rs scope="impl<E, P> PolynomialCommitment<E::ScalarField, P> for SonicKZG10<E, P>" name=open_combinations props=C06,C04,C17
+//@fn id=sonic.open_combinations file=poly-commit/src/sonic_pc/mod.rs scope="impl<E, P> PolynomialCommitment<E::ScalarField, P> for SonicKZG10<E, P>" name=open_combinations props=C06,C04,C17,C11
     #[verifier::loop_isolation(false)]
     fn open_combinations<'a>(ck: &CK, linear_combinations: Vec<&'a LinearCombination>, polynomials: Vec<&'a LabeledPolynomial>, commitments: Vec<&'a LabeledCommitment<Commitment>>, query_set: &BTreeSet<(String, (String, Pt))>, sponge: &mut Sponge, states: Vec<&'a St>, rng: Option<&mut Rng>) -> (res: Result<BatchLCProof, Error>)
     ensures
